@@ -90,6 +90,10 @@ def convert(model: nn.Module, input_example: Any, conversion_type: str,
         raise ValueError("Unsupported conversion type {}".format(conversion_type))
 
     tracer = PITTracer()
+    # tracing and shape propagation require eval mode, but the conversion must not leave the
+    # model that was passed in (and the sub-modules it shares with the result) in a different
+    # training/eval mode from the one it was found in
+    training_flags = {m: m.training for m in model.modules()}
     graph = tracer.trace(model.eval())
     name = model.__class__.__name__
     mod = fx.GraphModule(tracer.root, graph, name)
@@ -113,6 +117,8 @@ def convert(model: nn.Module, input_example: Any, conversion_type: str,
     mod.recompile()
     nlf = named_leaf_modules(mod)
     ulf = uniquify_leaf_modules(nlf)
+    for m, flag in training_flags.items():
+        m.training = flag
     return mod, nlf, ulf
 
 
